@@ -171,10 +171,12 @@ func c07Chains(c *ctx) {
 	steps := c.argInt("steps", 30)
 	ops := []string{"NextDay", "NextDay", "NextHour", "NextMonth", "NextYear", "JdRoundTrip", "LunarRound", "LunarNext", "LunarNext", "LunarCtor", "TaoCtor", "FotoCtor"}
 	starts := [][]int{{1582, 10, 4}, {1582, 10, 15}, {2033, 12, 22}, {2034, 1, 19}, {16, 1, 1}, {15, 12, 31}, {24, 1, 1}, {237, 2, 11}, {240, 1, 5}, {2020, 5, 23}, {9990, 12, 31}, {3, 1, 5}}
+	c.manualRotate = true
 	for k := 0; k < nChains; k++ {
 		if !c.mine(k) {
 			continue
 		}
+		c.rotateIfDue()
 		var cur *calendar.Solar
 		if k%2 == 0 {
 			st := starts[c.rng.Intn(len(starts))]
